@@ -41,7 +41,9 @@ def gen_case(rng, chk, mode, explicit, as_fraction, tname=None):
         rng.randint(-50, 50)
     off = rng.choice(OFFSETS)
     # a hair beside a tie or a multiple: 10**-3 .. 10**-33 of the quantum
-    eps = F(1, 10 ** rng.choice([3, 6, 6, 10, 15, 25, 33]))
+    # (a function of k, so that the same amount and quantum keep recurring
+    # under different modes within one process: memoised helpers)
+    eps = F(1, 10 ** [6, 3, 10, 6, 15, 25, 33][k % 7])
     frac = {"mult": F(0), "tie": F(1, 2), "tie+": F(1, 2) + eps,
             "tie-": F(1, 2) - eps, "third": F(1, 3),
             "nine": F(9, 10), "mult+": eps, "mult-": -eps}[off]
